@@ -38,6 +38,7 @@ def check_case(case, res=None):
         if not s.usable:
             if res is not None:
                 res.labels["generator_or_import_failed(C18)"] += 1
+                res.labels["failed:" + repr(s.error or s.import_error)[:160]] += 1
             return
         an = s.an
         for it in case["items"]:
